@@ -68,3 +68,16 @@ Example reinstallation_bound_attained :
             created s 0 = 2 /\ fsaves s 0 = 0 /\ crashes s 0 = 0 /\ resets s 0 = 1 /\
             slots s 0 = Slot (Some 2) (Some 2) /\ pcof s 1 = Done (Some (MA 2 2)).
 Proof. eexists. split; [vm_compute; reflexivity|]. vm_compute. repeat split; reflexivity. Qed.
+
+(** a failed Unlock: the issuance goes on and succeeds, the lock stays held *)
+Example unlock_fault_leaves_lock :
+  exists s, run init (Start 0 0 :: ops 0 6 ++ [Op 0 true; Op 0 false]) = Some s /\
+            unlock_faults init (Start 0 0 :: ops 0 6 ++ [Op 0 true; Op 0 false]) = 1 /\
+            pcof s 0 = Done (Some (MA 1 1)) /\ lock s = Some 0.
+Proof. eexists. split; [vm_compute; reflexivity|]. vm_compute. repeat split; reflexivity. Qed.
+
+(** ... and without one it is free (hypotheses of [lock_free_when_quiescent]) *)
+Example no_unlock_fault_run :
+  unlock_faults init run_first_use = 0 /\
+  exists s, run init run_first_use = Some s /\ lock s = None.
+Proof. split; [vm_compute; reflexivity|]. eexists. split; vm_compute; reflexivity. Qed.
